@@ -59,10 +59,14 @@ def raise_if_harness_fault(e: BaseException):
         return
     if "injected failure of objective" in str(e) or type(e).__name__ == "BrokenProcessPool":
         return
-    tb, last = e.__traceback__, None
+    if getattr(e, "_sim_origin", None) is not None:
+        return          # raised by library code inside a simulated worker process (its traceback stayed there)
+    tb, last, last_fn = e.__traceback__, None, None
     while tb is not None:
-        last = tb.tb_frame.f_code.co_filename
+        last, last_fn = tb.tb_frame.f_code.co_filename, tb.tb_frame.f_code.co_name
         tb = tb.tb_next
+    if last and "/sim/pools.py" in last and last_fn in ("result", "exception", "gen"):
+        return          # an exception handed over by a future: the future re-raises what the task raised
     if last and last.startswith(_VERIF_ROOT + os.sep) and "/workload/tasks.py" not in last:
         # documented ValueErrors of the pool model (max_workers <= 0, submit after shutdown) mirror CPython's
         if isinstance(e, (ValueError, RuntimeError)) and "/sim/pools.py" in last and \
